@@ -145,6 +145,8 @@ def check_metamorphic(short, inum, t, data):
     where = "device/instance frame %#08x (short %d, instance %d) with map type %r" % (v_di, short, inum, t)
     try:
         m = DeviceInstanceTypeMapper()
+        # the entry is first recorded with another type, then corrected: the latest information must win
+        m.add_type(short_address=short, instance_number=inum, instance_type=(t + 3) % 32 if isinstance(t, int) else 1)
         m.add_type(short_address=short, instance_number=inum, instance_type=t)
         other = DeviceInstanceTypeMapper()
         other.add_type(short_address=(short + 1) % 64, instance_number=inum, instance_type=t)
@@ -210,6 +212,17 @@ def check_map_construction(entries):
             if m.get_type(short_address=63 - entries[0][0] if (63 - entries[0][0], entries[0][1]) not in ref else 0,
                           instance_number=entries[0][1]) not in (None, ref.get((0, entries[0][1]))):
                 out.append(("C12:map-lookup", "map built from %s answers for a source never added" % name))
+        # an entry named again replaces the earlier one (unit replaced / instance re-commissioned / one bus-wide
+        # map kept up to date); entries supplied through initial= can be updated too
+        s0, i0, t0 = entries[0]
+        for name, m in (("ints", a), ("initial=", d)):
+            for t_new in ((t0 + 1) % 32, 0, 31, t0):
+                m.add_type(short_address=s0, instance_number=i0, instance_type=t_new)
+                q = m.get_type(short_address=s0, instance_number=i0)
+                if q != t_new:
+                    out.append(("C12:map-update-ignored", "map built from %s: (%d,%d) was %r, add_type(...%r) again leaves "
+                                "get_type = %r" % (name, s0, i0, t0, t_new, q)))
+                    break
         a.clear()
         if a.mapping != {}:
             out.append(("C12:map-clear", "clear() left %r" % (a.mapping,)))
